@@ -3,6 +3,7 @@
 package main
 
 import (
+	"runtime/pprof"
 	"flag"
 	"fmt"
 	"os"
@@ -20,7 +21,16 @@ func main() {
 	repo := flag.String("repo", "/repo", "path of pion/rtcp working tree")
 	out := flag.String("out", "", "evidence file (default /verif/evidence/<id>.json)")
 	known := flag.String("known", "", "known findings file (default <verif>/known_findings.json)")
+	cpuprof := flag.String("cpuprofile", "", "write a CPU profile (debugging)")
 	flag.Parse()
+	debug.SetGCPercent(800)
+	if *cpuprof != "" {
+		pf, err := os.Create(*cpuprof)
+		if err == nil {
+			pprof.StartCPUProfile(pf)
+			defer pprof.StopCPUProfile()
+		}
+	}
 	if t := os.Getenv("VERIF_TIER"); t != "" && *tier == "" {
 		*tier = t
 	}
@@ -58,5 +68,7 @@ func main() {
 		}
 		fn(&props.Ctx{Prog: prog, Rep: rep, Tier: *tier, Repo: *repo, Verif: verif})
 	}()
-	os.Exit(rep.Finish(*out, kf, cmdline))
+	code := rep.Finish(*out, kf, cmdline)
+	pprof.StopCPUProfile()
+	os.Exit(code)
 }
